@@ -591,6 +591,10 @@ def load_replay(path):
 
 def write_evidence(prop, tier, seed, level, coverage, assumptions, wall_s, violations):
     d = os.path.join(VERIF_DIR, "evidence")
+    if src_root() != "/repo" or os.environ.get("VERIF_RUNS") or os.environ.get("VERIF_WALK_FILES"):
+        # a run against another tree (mutant / seeded change) or with an overridden run count is not
+        # evidence about /repo from the registered command: keep it away from evidence/<id>.json
+        d = os.path.join(d, "_scratch")
     os.makedirs(d, exist_ok=True)
     doc = {
         "property_id": prop,
